@@ -124,7 +124,12 @@ def run(pid, path):
         lines = C.group_lines(out).get("r", [])
         for l in lines:
             _print("REPLAY: " + l)
-        still = any(l.endswith("same false") for l in lines) or "end" not in lines
+        res = {}
+        for l in lines:
+            f = l.split()
+            if f[0] == "hold" and len(f) >= 4 and f[2] != "error":
+                res[int(f[1])] = (f[2], f[3])
+        still = any(k >= 1 and 0 in res and v != res[0] for k, v in res.items()) or "end" not in lines
         _print("REPLAY: recorded failure was: %s" % rp.get("what"))
         return 1 if still else 0
     if kind == "fullmoves":
